@@ -95,8 +95,6 @@ class C03(Pipeline):
             raise vk.Broken("vacuous drive: kinds never delivered: %s" % missing)
         never_ok = {"SkLegacyBatchSendToEthClaim", "PaAddLicenseFor"}
         for k, c in sorted(per.items()):
-            if c["fail"] == 0:
-                raise vk.Broken("vacuous drive: kind %s was never rejected" % k)
             if c["ok"] == 0 and k not in never_ok:
                 raise vk.Broken("vacuous drive: kind %s never succeeded" % k)
         for a in ("Grant", "GrantExp", "Revoke"):
@@ -105,9 +103,14 @@ class C03(Pipeline):
         dl = [e for e in events if e["act"] == "Deliver"]
         granted = sum(1 for e in dl if e["res"] == "ok" and e["args"]["s"] != e["args"]["c"] and e["args"]["s"] != 3)
         viagov = sum(1 for e in dl if e.get("via") == "gov" and e["res"] == "ok")
+        if granted < 20 or viagov < 5:
+            raise vk.Broken("vacuous drive: %d deliveries on a fee grant, %d by governance" % (granted, viagov))
+        # rejections missing altogether would make the evidence vacuous, but they are exactly what a broken authorisation
+        # layer looks like: reported as BROKEN only if the monitors found nothing (see execute)
+        self._soft = ["kind %s was never rejected" % k for k, c in sorted(per.items()) if c["fail"] == 0]
         by_decorator = sum(1 for c in per.values() if c["ante"] > 0)
-        if granted < 20 or viagov < 5 or by_decorator < 40:
-            raise vk.Broken("vacuous drive: %d deliveries on a fee grant, %d by governance, %d kinds rejected by the decorator" % (granted, viagov, by_decorator))
+        if by_decorator < 40:
+            self._soft.append("only %d kinds were ever rejected by the decorator" % by_decorator)
 
     def extra_coverage(self, tier):
         ev = getattr(self, "_events", [])
@@ -179,7 +182,12 @@ class C03(Pipeline):
 
     def execute(self, tier):
         self._tier = tier
-        return super().execute(tier)
+        self._soft = []
+        violations, known, cov = super().execute(tier)
+        if self._soft and not violations:
+            raise vk.Broken("vacuous drive: " + "; ".join(self._soft[:5]))
+        cov["vacuity_notes"] = self._soft
+        return violations, known, cov
 
     # ---- known findings -------------------------------------------------
     def match_known(self, finding, failure):
@@ -218,49 +226,59 @@ class C03(Pipeline):
                         return h, k
             return None, None
 
-        jobs = {}
+        jobs, skipped = {}, []
+        # (a sample that the recorded trace does not contain is skipped, not failed: a broken authorisation layer must end
+        # in VIOLATION, not in a failed self-test; at least three corruptions must have been tried)
         # 1. an honest delivery (A signs for itself, B untouched): B's recorded projection altered -> NoForeignWrite
         h, k = find(lambda e, evs: e["res"] == "ok" and e["args"]["s"] == 1 and e["args"]["c"] == 1 and e["args"]["n"] == 1
                     and e["args"]["kind"] == "VaKeepAlive" and not any(c.startswith("B.") for c in e["chg"]))
         if h is None:
-            return {"ok": False, "why": "no honest VaKeepAlive delivery recorded"}
-        evs = copy.deepcopy(byh[h])
-        evs[k]["obs"]["post"]["B"][8] += 7
-        jobs["altered_foreign_state_noticed"] = (evs, lambda v: any(n == "C03.NoForeignWrite" for n, _, _ in v.monfail))
-        # 2. a delivery rejected by the decorator reported as successful -> GrantNeeded
-        h, k = find(lambda e, evs: e.get("cls") == "ante" and e["args"]["s"] == 1 and e["args"]["c"] == 2)
+            skipped.append("altered_foreign_state_noticed")
+        else:
+            evs = copy.deepcopy(byh[h])
+            evs[k]["obs"]["post"]["B"][8] += 7
+            jobs["altered_foreign_state_noticed"] = (evs, lambda v: any(n == "C03.NoForeignWrite" for n, _, _ in v.monfail))
+        # 2. a delivery in B's name without any grant reported as successful -> GrantNeeded
+        h, k = find(lambda e, evs: e["args"]["s"] == 1 and e["args"]["c"] == 2 and e["g"]["ba"] == 0 and e.get("cls") not in ("build", "block"))
         if h is None:
-            return {"ok": False, "why": "no decorator rejection recorded"}
-        evs = copy.deepcopy(byh[h])
-        evs[k]["res"], evs[k]["cs"], evs[k]["code"], evs[k]["cls"] = "ok", "", 0, "ok"
-        jobs["forged_success_without_grant_noticed"] = (evs, lambda v: any(n == "C03.GrantNeeded" for n, _, _ in v.monfail))
+            skipped.append("forged_success_without_grant_noticed")
+        else:
+            evs = copy.deepcopy(byh[h])
+            evs[k]["res"], evs[k]["cs"], evs[k]["code"], evs[k]["cls"] = "ok", "", 0, "ok"
+            jobs["forged_success_without_grant_noticed"] = (evs, lambda v: any(n == "C03.GrantNeeded" for n, _, _ in v.monfail))
         # 3. the Grant step dropped from a history whose delivery relied on it -> continuity / GrantNeeded
         h, k = find(lambda e, evs: e["res"] == "ok" and e["args"]["s"] == 1 and e["args"]["c"] == 2 and e["g"]["ba"] == 1
                     and len(evs) == 3 and evs[1]["act"] == "Grant")
         if h is None:
-            return {"ok": False, "why": "no delivery on a fee grant recorded"}
-        evs = [byh[h][0], byh[h][2]]
-        jobs["dropped_grant_noticed"] = (evs, lambda v: (not v.accepted) or any(n in ("Setup.GrantsContinuous", "C03.GrantNeeded") for n, _, _ in v.monfail))
+            skipped.append("dropped_grant_noticed")
+        else:
+            evs = [byh[h][0], byh[h][2]]
+            jobs["dropped_grant_noticed"] = (evs, lambda v: (not v.accepted) or any(n in ("Setup.GrantsContinuous", "C03.GrantNeeded") for n, _, _ in v.monfail))
         # 4. a governance-only message of A reported as successful -> GovOnly
-        h, k = find(lambda e, evs: e["args"]["kind"] == "SkNonceOverride" and e["args"]["s"] == 1 and e["args"]["c"] == 1 and e["res"] == "fail")
+        h, k = find(lambda e, evs: e["args"]["kind"] == "SkNonceOverride" and e["args"]["s"] == 1 and e["args"]["c"] == 1)
         if h is None:
-            return {"ok": False, "why": "no rejected governance-only message recorded"}
-        evs = copy.deepcopy(byh[h])
-        evs[k]["res"], evs[k]["cs"], evs[k]["code"], evs[k]["cls"] = "ok", "", 0, "ok"
-        jobs["forged_governance_success_noticed"] = (evs, lambda v: any(n == "C03.GovOnly" for n, _, _ in v.monfail))
+            skipped.append("forged_governance_success_noticed")
+        else:
+            evs = copy.deepcopy(byh[h])
+            evs[k]["res"], evs[k]["cs"], evs[k]["code"], evs[k]["cls"] = "ok", "", 0, "ok"
+            jobs["forged_governance_success_noticed"] = (evs, lambda v: any(n == "C03.GovOnly" for n, _, _ in v.monfail))
         # 5. a message type missing from the registry event's table -> coverage gap monitor
         h = next((hh for hh, ee in byh.items() if any(e["act"] == "Registry" for e in ee)), None)
         if h is None:
-            return {"ok": False, "why": "no registry event"}
-        evs = copy.deepcopy(byh[h])
-        evs[1]["reg"].append("/palomachain.paloma.skyway.MsgBrandNew")
-        jobs["unlisted_message_type_noticed"] = (evs, lambda v: any(n == "Setup.KindTableComplete" for n, _, _ in v.monfail))
+            skipped.append("unlisted_message_type_noticed")
+        else:
+            evs = copy.deepcopy(byh[h])
+            evs[1]["reg"].append("/palomachain.paloma.skyway.MsgBrandNew")
+            jobs["unlisted_message_type_noticed"] = (evs, lambda v: any(n == "Setup.KindTableComplete" for n, _, _ in v.monfail))
+        if len(jobs) < 3:
+            return {"ok": False, "why": "samples missing in the recorded trace: %s" % skipped}
         t0 = time.time()
         with ThreadPoolExecutor(max_workers=len(jobs)) as ex:
             vs = dict(zip(jobs, ex.map(lambda j: vk.tlc_validate(self.trace_module, self.with_resets(j[0]), cfg=self.trace_cfg), jobs.values())))
         out = {name: bool(jobs[name][1](vs[name])) for name in jobs}
         vk.log("binding self-test: %.1fs" % (time.time() - t0))
         out["ok"] = all(out.values())
+        out["skipped"] = skipped
         return out
 
 
